@@ -145,7 +145,7 @@ impl Prop for C10 {
         }
     }
     fn rule(&self) -> String {
-        "generated: the exactly-specified catalogue blocks (sample-wise arithmetic/logic/conversion, slicer, NRZI, LFSR descrambler, both correlators, Delay, Skip, Tee, RationalResampler incl. non-coprime pairs, RTL-SDR decoder, VectorSource/ConstantSource, VecToStream, StreamToPdu (tail 0, well-formed tag pairs), BurstTagger, ToText, FftStream, NullSink, VectorSink) x parameters x inputs (all byte values, float specials incl. NaN/inf/subnormals, lengths 0..14k, thorough 40k) x chunked delivery by generated drip schedules (which include the one-shot shape). Oracle: differential against independent reference models (harness/src/refmodel.rs): exact values and exact counts, NaN payloads canonicalised; FftStream against a direct O(n^2) DFT within 16*eps*log2(n)*sum|x|. Non-trivial: input longer than one stream capacity, or parameters at a boundary (0, 1, interp==deci, empty code); distinct = hash of the case.".into()
+        "generated: the exactly-specified catalogue blocks (sample-wise arithmetic/logic/conversion, slicer, NRZI, LFSR descrambler, both correlators, Delay, Skip, Tee, RationalResampler incl. non-coprime pairs, RTL-SDR decoder, VectorSource/ConstantSource, VecToStream, StreamToPdu (tail 0, well-formed tag pairs), BurstTagger, ToText, FftStream (plain and threaded(true)), NullSink, VectorSink) x parameters x inputs (all byte values, float specials incl. NaN/inf/subnormals, lengths 0..14k, thorough 40k) x chunked delivery by generated drip schedules (which include the one-shot shape). Oracle: differential against independent reference models (harness/src/refmodel.rs): exact values and exact counts, NaN payloads canonicalised; FftStream against a direct O(n^2) DFT within 16*eps*log2(n)*sum|x|. Non-trivial: input longer than one stream capacity, or parameters at a boundary (0, 1, interp==deci, empty code); distinct = hash of the case.".into()
     }
     fn assumptions(&self) -> Vec<String> {
         vec![
@@ -164,7 +164,7 @@ fn boundary_params(spec: &BlockSpec) -> bool {
         ResampU8 { interp, deci } | ResampF32 { interp, deci } => interp == deci || *interp == 1 || *deci == 1,
         Cac { code, .. } | CacTag { code, .. } => code.len() <= 1,
         Descrambler { len, .. } => *len == 0 || *len == 63,
-        FftStream { size } => *size == 0,
+        FftStream { size, .. } => *size == 0,
         VectorSourceU8 { len, repeat } => *len <= 1 || *repeat == 0,
         VectorSinkU8 { max } => *max <= 1,
         _ => false,
